@@ -26,7 +26,7 @@
     /// for every element on other targets and in no_std builds - must compute the same for every element, so that the
     /// result does not depend on CPU features or on how the allocation happens to be aligned.
     #[kani::proof]
-    #[kani::unwind(6)]
+    #[kani::unwind(18)]
     fn c14_normalize_scalar() {
         let mut p: [i32; 4] = vk::any();
         let off: i32 = vk::any();
